@@ -796,6 +796,12 @@ def register(I):
     R["combinator::delimited"] = ctor("delimited")
     R["combinator::separated_pair"] = ctor("separated_pair")
     R["combinator::cut_err"] = ctor("cut_err")
+    def h_trace(I, st, args, info):
+        return args[1]                 # trace(name, parser): the parser itself
+    R["combinator::trace"] = h_trace
+    R["trace::trace"] = h_trace
+    R["trace"] = h_trace
+    R["::trace"] = h_trace
     R["combinator::peek"] = ctor("peek")
     R["combinator::opt"] = ctor("opt")
     R["combinator::not"] = ctor("not")
